@@ -238,7 +238,7 @@ func (s verifSourceLocations) ByDescriptor(d protoreflect.Descriptor) protorefle
 			}
 		}
 		if same {
-			out := protoreflect.SourceLocation{LeadingComments: loc.GetLeadingComments(), TrailingComments: loc.GetTrailingComments()}
+			out := protoreflect.SourceLocation{Path: protoreflect.SourcePath(path), LeadingComments: loc.GetLeadingComments(), TrailingComments: loc.GetTrailingComments()}
 			if len(loc.Span) > 0 {
 				out.StartLine = int(loc.Span[0])
 				out.EndLine = int(loc.Span[0])
